@@ -31,6 +31,7 @@ import (
 // read, the shard files afterwards, a second read. Trace (see lean/Driver/C17.lean):
 //
 //	cfg <d> <p> <stripe>
+//	fixes ec=<0|1> parity=<0|1>   which proposed repairs the tree under test carries (probed)
 //	content <hex>                 the part (A); the "other" part (B) is A with every byte xor 0x5a
 //	orig <k> <len> <sha256>       what PutPart really wrote to shard k (tie on the writer side)
 //	fault <k> missing | trunc <n> | xor <off> <mask> | set <off> <hex> | foreign | append <hex>
@@ -132,11 +133,56 @@ func c17FaultCatalogue(k int, l c17Layout) []c17Fault {
 }
 
 type c17Runner struct {
-	dir  string
-	db   database.Database
-	out  *verifx.Out
-	ctx  context.Context
-	hung bool
+	dir   string
+	db    database.Database
+	out   *verifx.Out
+	ctx   context.Context
+	hung  bool
+	fixes string
+}
+
+// probeFixes finds out by two probes on the real code which proposed repairs the tree under test
+// carries: ec=1 — GetPart of a part none of whose shards exists answers not-found
+// (fixes/C15-ec-absent-part-not-found.patch); parity=1 — a missing parity shard is healed with its
+// real content (fixes/C17-heal-parity-shards.patch). The driver selects the model variant accordingly.
+func (rn *c17Runner) probeFixes() {
+	ctx := rn.ctx
+	dirs := []string{filepath.Join(rn.dir, "probe0"), filepath.Join(rn.dir, "probe1")}
+	stores := make([]partstore.PartStore, 2)
+	for i, d := range dirs {
+		verifx.Check(os.MkdirAll(d, 0o755))
+		stores[i] = verifx.Must(fsstore.New(d))
+	}
+	defer func() {
+		for _, d := range dirs {
+			_ = os.RemoveAll(d)
+		}
+	}()
+	ec := verifx.Must(erasurecoding.NewWithPartStores(1, 1, 1024, stores, erasurecoding.WithHealScanInterval(0)))
+	verifx.Check(ec.Start(ctx))
+	defer ec.Stop(ctx)
+	absent := *verifx.Must(partstore.NewRandomPartId())
+	ecFix := 0
+	if rc, err := ec.GetPart(ctx, nil, absent); err != nil {
+		ecFix = 1
+	} else {
+		_, _ = io.ReadAll(rc)
+		_ = rc.Close()
+	}
+	id := *verifx.Must(partstore.NewRandomPartId())
+	verifx.Check(ec.PutPart(ctx, nil, id, bytes.NewReader([]byte("probe"))))
+	pf := filepath.Join(dirs[1], hex.EncodeToString(id.Bytes()))
+	orig := verifx.Must(os.ReadFile(pf))
+	verifx.Check(os.Remove(pf))
+	rc := verifx.Must(ec.GetPart(ctx, nil, id))
+	_, _ = io.ReadAll(rc)
+	_ = rc.Close()
+	now, _ := os.ReadFile(pf)
+	parity := 0
+	if bytes.Equal(now, orig) {
+		parity = 1
+	}
+	rn.fixes = fmt.Sprintf("fixes ec=%d parity=%d", ecFix, parity)
 }
 
 func (rn *c17Runner) guard(what string, fn func()) {
@@ -185,6 +231,7 @@ func (rn *c17Runner) run(k int, seed uint64, c *c17Case) {
 	verifx.Check(ec.Start(ctx))
 	defer ec.Stop(ctx)
 	out.Line("cfg %d %d %d", c.d, c.p, c.stripe)
+	out.Line("%s", rn.fixes)
 	out.Line("content %s", verifx.Hex(c.content))
 	idA := *verifx.Must(partstore.NewRandomPartId())
 	idB := *verifx.Must(partstore.NewRandomPartId())
@@ -318,6 +365,7 @@ func runC17(args []string) {
 	db := verifx.Must(sqlite.OpenDatabase(filepath.Join(dir, "pithos.db")))
 	defer db.Close()
 	rn := &c17Runner{dir: dir, db: db, out: out, ctx: context.Background()}
+	rn.probeFixes()
 	k := 0
 	emit := func(seed uint64, c *c17Case) {
 		if f.Wants(k) && !rn.hung {
